@@ -746,6 +746,29 @@ fn e2e(src: &str, with_out: bool) -> String {
     if c_in.len() >= 2 {
         sigs.push("two-comments");
     }
+    {
+        // a comment directly after `=>` on its line, or a comment line followed by `=>` (F28)
+        let norm = src.replace("\r\n", "\n");
+        let mut prev_comment = false;
+        let mut hit = false;
+        for line in norm.split('\n') {
+            let t = line.trim();
+            if prev_comment && t.starts_with("=>") {
+                hit = true;
+            }
+            if let Some(i) = line.find("//") {
+                if line[..i].trim_end().ends_with("=>") {
+                    hit = true;
+                }
+                prev_comment = true;
+            } else if !t.is_empty() {
+                prev_comment = false;
+            }
+        }
+        if hit {
+            sigs.push("comment-near-arrow");
+        }
+    }
     fields.push(format!("(sig {})", sigs.join(" ")));
     let c_out = scan_comments(&out1);
     let ckind = if c_in == c_out {
@@ -756,10 +779,10 @@ fn e2e(src: &str, with_out: bool) -> String {
         b.sort();
         if a == b {
             "reordered"
-        } else if c_in.join(" ") == c_out.join(" ") {
-            "merged"
-        } else if c_out.len() < c_in.len() {
+        } else if !c_in.iter().all(|c| c_out.iter().any(|o| o.contains(c.as_str()))) {
             "lost"
+        } else if c_out.len() <= c_in.len() {
+            "merged"
         } else {
             "changed"
         }
